@@ -242,6 +242,21 @@ def work(item):
                     for ajax in (None, 'XMLHttpRequest'):
                         n += 1
                         nt += check_response(res, enc(x), ajax, request(enc(x), ajax, app), '')
+            # valid numbers beyond the documented ones (other lengths, branches behind the code's own literals): the
+            # application formats and describes what is valid
+            try:
+                from .. import e2
+                more = [v for v in e2.valid_set(name, core.modules()[name], 'quick', nseeds=4, cap=10 if quick else 60)[0]
+                        if all(v != b for a, b in sv)]
+            except Exception:
+                more = []
+            for x in more:
+                try:
+                    q = enc(x)
+                except Exception:
+                    continue
+                n += 1
+                nt += check_response(res, q, None, request(q, None, app), '')
             # hostile single edits of one seed
             if sv:
                 base = sv[0][0]
